@@ -66,6 +66,10 @@ func addWalletModel(P *Program) {
 		h[lib+".DeserializeWallet"] = deser
 	}
 
+	// the scratch store: the next store the harness has prepared (stubs.NextScratchStore)
+	h["github.com/wealdtech/go-eth2-wallet-store-scratch.New"] = func(i *interpreter, fr *frame, fn *ssa.Function, args []value) value {
+		return call(i, fr, 0, i.stubFunc("NextScratchStore"), nil)
+	}
 	h["github.com/wealdtech/go-eth2-wallet-encryptor-keystorev4.New"] = func(i *interpreter, fr *frame, fn *ssa.Function, args []value) value {
 		cell := zero(mustDeref(fn.Signature.Results().At(0).Type()))
 		return &cell
